@@ -762,51 +762,21 @@ class Runner:
         return "ok " + " ".join(self.tokens) if self.tokens else "ok"
 
 
-_VARIANT = None
 
 
 def collapse_always() -> int:
-    """Which `_delete` the working tree implements (Model.BTree.deleteRoot): 0 = as shipped (an empty internal root is
-    collapsed only when an element was deleted), 1 = intended (collapsed whenever the root is left empty).
-    Probed on the implementation: deleting an absent key makes the two minimal leaves under a one-element root merge."""
-    global _VARIANT
-    if _VARIANT is None:
-        try:
-            tr = btree.BTreeSet(t=3)
-            for k in (0, 2, 4, 6, 8, 10):
-                tr.add(k)
-            tr.discard(10)
-            tr.discard(1)
-            _VARIANT = 0 if (not tr.root.is_leaf and len(tr.root.elts) == 0) else 1
-        except BaseException:
-            _VARIANT = 0
-    return _VARIANT
+    """The repaired `_delete` (dnspython f381413: an emptied root is collapsed whenever `delete` returns) is the
+    reference; the model is always run with this variant, so a tree without the repair disagrees with it."""
+    return 1
 
 
 COW_OPS = "IDXGCFOR"
 
 
-_VARIANT_ERR = None
-
-
 def collapse_on_error() -> int:
-    """Does `_delete` collapse an emptied root also when `delete` raised (a failed delete_exact)?  0 = no (an internal
-    root without elements stays until the next deletion), 1 = yes.  Probed on the implementation."""
-    global _VARIANT_ERR
-    if _VARIANT_ERR is None:
-        try:
-            tr = btree.BTreeSet(t=3)
-            for k in (0, 2, 4, 6, 8, 10):
-                tr.add(k)
-            tr.discard(10)
-            try:
-                tr.delete_exact(btree.Member(1))
-            except ValueError:
-                pass
-            _VARIANT_ERR = 0 if (not tr.root.is_leaf and len(tr.root.elts) == 0) else 1
-        except BaseException:
-            _VARIANT_ERR = 0
-    return _VARIANT_ERR
+    """The repaired `_delete` (dnspython 90d7725: the root is collapsed also when `delete_exact` raised) is the
+    reference."""
+    return 1
 
 
 def cow_line(case):
